@@ -272,7 +272,12 @@ Definition is_count (f : agg) : bool := match f with ACount => true | _ => false
 Definition feed (f : agg) (m : mode) (c : cell) : list value :=
   match m with
   | MStar => [VInt 1]
-  | MExpr => match c with Missing => [] | Cell v => [v] end        (* lines 249-259: no NULL test, no cast *)
+  | MExpr =>                                                        (* lines 249-265: NULL test, no cast *)
+      match c with
+      | Missing => []
+      | Cell VNull => if allow_null f then [VNull] else []
+      | Cell v => [v]
+      end
   | MCol =>
       match c with
       | Missing => []                                               (* !found: continue *)
